@@ -9,6 +9,7 @@ package simrt
 
 import (
 	"bufio"
+	"context"
 	"encoding/json"
 	"flag"
 	"fmt"
@@ -76,9 +77,10 @@ type Result struct {
 }
 
 type timer struct {
-	at int64
-	ch chan time.Time
-	f  func()
+	at     int64
+	ch     chan time.Time
+	f      func()
+	period int64 // > 0: a ticker, re-armed every period ticks
 }
 
 type run struct {
@@ -219,15 +221,110 @@ func After(d time.Duration) <-chan time.Time {
 	return r.addTimer(d, nil).ch
 }
 
-// AfterFunc replaces time.AfterFunc (the returned stop function is all callers get).
-func AfterFunc(d time.Duration, f func()) *time.Timer {
+// Timer and Ticker replace time.Timer and time.Ticker (siminstr rewrites the type names too).
+type Timer struct {
+	C    <-chan time.Time
+	r    *run
+	tm   *timer
+	real *time.Timer
+}
+
+func (r *run) dropTimer(tm *timer) bool {
+	r.mu.Lock()
+	defer r.mu.Unlock()
+	for i, t := range r.timers {
+		if t == tm {
+			r.timers = append(r.timers[:i], r.timers[i+1:]...)
+			return true
+		}
+	}
+	return false
+}
+
+// Stop prevents the timer from firing; it reports whether the timer was still pending.
+func (t *Timer) Stop() bool {
+	if t.real != nil {
+		return t.real.Stop()
+	}
+	ok := t.r.dropTimer(t.tm)
+	t.r.recompute()
+	return ok
+}
+
+// Reset re-arms the timer (same channel, same function).
+func (t *Timer) Reset(d time.Duration) bool {
+	if t.real != nil {
+		return t.real.Reset(d)
+	}
+	was := t.r.dropTimer(t.tm)
+	nt := t.r.addTimer(d, t.tm.f)
+	nt.ch = t.tm.ch
+	t.tm = nt
+	return was
+}
+
+// NewTimer replaces time.NewTimer.
+func NewTimer(d time.Duration) *Timer {
 	r := cur
 	if r == nil {
-		return time.AfterFunc(d, f)
+		rt := time.NewTimer(d)
+		return &Timer{C: rt.C, real: rt}
 	}
-	r.addTimer(d, f)
-	return time.NewTimer(1 << 62)
+	tm := r.addTimer(d, nil)
+	return &Timer{C: tm.ch, r: r, tm: tm}
 }
+
+// AfterFunc replaces time.AfterFunc.
+func AfterFunc(d time.Duration, f func()) *Timer {
+	r := cur
+	if r == nil {
+		return &Timer{real: time.AfterFunc(d, f)}
+	}
+	tm := r.addTimer(d, f)
+	return &Timer{r: r, tm: tm}
+}
+
+type Ticker struct {
+	C    <-chan time.Time
+	r    *run
+	tm   *timer
+	real *time.Ticker
+}
+
+func (t *Ticker) Stop() {
+	if t.real != nil {
+		t.real.Stop()
+		return
+	}
+	t.r.dropTimer(t.tm)
+	t.tm.period = 0
+	t.r.recompute()
+}
+
+func (t *Ticker) Reset(d time.Duration) {
+	if t.real != nil {
+		t.real.Reset(d)
+		return
+	}
+	t.r.dropTimer(t.tm)
+	nt := t.r.addTimer(d, nil)
+	nt.ch, nt.period = t.tm.ch, nt.at-t.r.ticks
+	t.tm = nt
+}
+
+// NewTicker replaces time.NewTicker; TickChan replaces time.Tick.
+func NewTicker(d time.Duration) *Ticker {
+	r := cur
+	if r == nil {
+		rt := time.NewTicker(d)
+		return &Ticker{C: rt.C, real: rt}
+	}
+	tm := r.addTimer(d, nil)
+	tm.period = tm.at - r.ticks
+	return &Ticker{C: tm.ch, r: r, tm: tm}
+}
+
+func TickChan(d time.Duration) <-chan time.Time { return NewTicker(d).C }
 
 // Sleep replaces time.Sleep: it advances virtual time instead of blocking.
 func Sleep(d time.Duration) {
@@ -272,6 +369,71 @@ func Now() time.Time {
 
 // Since replaces time.Since.
 func Since(t time.Time) time.Duration { return Now().Sub(t) }
+
+// simCtx is what context.WithTimeout / WithDeadline become: the deadline is a virtual timer.
+type simCtx struct {
+	parent   context.Context
+	done     chan struct{}
+	mu       sync.Mutex
+	err      error
+	deadline time.Time
+}
+
+func (c *simCtx) Deadline() (time.Time, bool) { return c.deadline, true }
+func (c *simCtx) Done() <-chan struct{}       { return c.done }
+func (c *simCtx) Value(k any) any             { return c.parent.Value(k) }
+func (c *simCtx) Err() error {
+	c.mu.Lock()
+	defer c.mu.Unlock()
+	return c.err
+}
+func (c *simCtx) finish(err error) {
+	c.mu.Lock()
+	if c.err == nil {
+		c.err = err
+		close(c.done)
+	}
+	c.mu.Unlock()
+}
+
+// WithTimeout replaces context.WithTimeout.
+func WithTimeout(parent context.Context, d time.Duration) (context.Context, context.CancelFunc) {
+	r := cur
+	if r == nil {
+		return context.WithTimeout(parent, d)
+	}
+	c := &simCtx{parent: parent, done: make(chan struct{}), deadline: Now().Add(d)}
+	tm := r.addTimer(d, func() { c.finish(context.DeadlineExceeded) })
+	if pd := parent.Done(); pd != nil {
+		go func() { // not a goroutine of the simulated program: it only relays the parent's end
+			select {
+			case <-pd:
+				c.finish(parent.Err())
+			case <-c.done:
+			}
+		}()
+	}
+	return c, func() {
+		c.finish(context.Canceled)
+		r.mu.Lock()
+		keep := r.timers[:0]
+		for _, t := range r.timers {
+			if t != tm {
+				keep = append(keep, t)
+			}
+		}
+		r.timers = keep
+		r.mu.Unlock()
+	}
+}
+
+// WithDeadline replaces context.WithDeadline.
+func WithDeadline(parent context.Context, t time.Time) (context.Context, context.CancelFunc) {
+	if cur == nil {
+		return context.WithDeadline(parent, t)
+	}
+	return WithTimeout(parent, t.Sub(Now()))
+}
 
 // Getpid / Getppid replace os.Getpid / os.Getppid: a process id is the environment's choice
 // (a warm worker would otherwise report the same one for every simulated process).
@@ -541,10 +703,25 @@ func (r *run) slow() {
 			if tm.f != nil {
 				Go(tm.f)
 			} else {
-				tm.ch <- time.Time{}
+				select {
+				case tm.ch <- time.Time{}:
+				default: // a ticker nobody has read from since its last tick
+				}
+			}
+			if tm.period > 0 && r.sc.NsTick > 0 {
+				tm.at = t + tm.period
+				r.mu.Lock()
+				r.timers = append(r.timers, tm)
+				r.mu.Unlock()
 			}
 		}
-		runtime.Goexit()
+		// The computing goroutine is preempted here: whoever waits for the timer becomes
+		// runnable and the scheduler decides who goes on. In ruby-ti that is main's select,
+		// which prints `timeout` and exits the process; a timer that is not a watchdog just
+		// wakes its waiter and the computation continues.
+		r.yield()
+		r.recompute()
+		return
 	}
 	if t >= r.budget {
 		r.hangAt = r.hangSignature()
